@@ -978,6 +978,7 @@ def build_models(I):
     reg(_dsl.set_keys, m_set_keys)
     reg(_dsl.seq_contains, m_seq_contains)
     reg(_dsl.list_of, lambda I, a, k: a[0])
+    reg(_dsl.sjoin, m_sjoin)
     reg(_dsl.is_prefix, m_is_prefix)
     reg(_dsl.le_int, m_le_int)
     reg(_dsl.be_int, m_be_int)
@@ -1329,9 +1330,9 @@ def _(I, sv, args, kwargs):
         v = args[0]
         if isinstance(sv, str) and sv == '':
             # ''.join(list of 1-char strings) over a symbolic list of chars
-            if isinstance(v, Ref) and isinstance(I.cell(v), ListCell) and I.cell(v).ek is not None \
-                    and I.cell(v).ek.name == 'char':
-                return SSeq(I.cell(v).t, str)
+            ek = I.seq_elem_kind(v)
+            if ek is not None and ek.name == 'bytes' and ek.cls is str:
+                return m_sjoin(I, [v], {})
         raise OutOfReach('join over symbolic iterable')
     parts = []
     for k, x in enumerate(items):
@@ -1517,7 +1518,13 @@ def set_contains(I, c, x):
         if t is not False:
             ts.append(t)
     if c.sym is not None:
-        ts.append(z3.Contains(c.sym, z3.Unit(I.kind_unwrap(KBYTES(bytes), k))))
+        # membership in the symbolic part, stated with an explicit index (solvers handle this
+        # form far better than seq.contains)
+        I.qdepth = getattr(I, 'qdepth', 0) + 1
+        q = z3.Int('q%d_member' % I.qdepth)
+        I.qdepth -= 1
+        kb = I.kind_unwrap(KBYTES(bytes), k)
+        ts.append(z3.Exists([q], z3.And(q >= 0, q < z3.Length(c.sym), c.sym[q] == kb)))
     if not ts:
         return False
     return I.wrap_bool(z3.Or(*ts))
@@ -1533,6 +1540,36 @@ def _(I, sv, args, kwargs):
 
 def havoc_set(I, ref, name):
     I.setcell(ref, SetCell(items=(), sym=I.fresh_const(name, SeqBoxS)))
+
+
+def sjoin_term(I, t):
+    """concatenation of the (boxed) strings of a sequence term: structural on empty/unit/concat, the
+    uninterpreted function sjoin otherwise"""
+    t = I.rw(t)
+    if z3.is_app(t):
+        k = t.decl().kind()
+        if k == z3.Z3_OP_SEQ_EMPTY:
+            return z3.Empty(SeqS)
+        if k == z3.Z3_OP_SEQ_UNIT:
+            b = t.arg(0)
+            s = unbox(b)
+            I.fact(box(s) == b)
+            return I.rw(s)
+        if k == z3.Z3_OP_SEQ_CONCAT:
+            return I.mk_concat([sjoin_term(I, c) for c in t.children()])
+    return ufun('sjoin', SeqBoxS, SeqS)(t)
+
+
+def m_sjoin(I, args, kwargs):
+    v = args[0]
+    items = I.try_iter_concrete(v)
+    if items is not None:
+        parts = [I.seq_term(x) for x in items]
+        return I.norm_seq_value(I.rw(I.mk_concat(parts)) if parts else z3.Empty(SeqS), str)
+    ek = I.seq_elem_kind(v)
+    if ek is None or ek.name != 'bytes':
+        raise OutOfReach('sjoin over %r' % (v,))
+    return I.norm_seq_value(sjoin_term(I, I.any_seq_term_k(v, ek)), str)
 
 
 def m_set_keys(I, args, kwargs):
